@@ -263,6 +263,34 @@ class ProxyWorld:
     def locked_live(self, ks):
         return all(self.unlock.get(k, 0) > self.epoch for k in ks)
 
+    def wlp_locked_part(self, p):
+        """(locked nonce, locked amount) behind a wrapped LP payment, None if into_part aborts"""
+        w = self.wlp.get(p[1])
+        if p[0] != 3 or not w or p[2] <= 0:
+            return None
+        r = rule3(w["T"], p[2], w["L"])
+        return None if r is None else (w["k"], r)
+
+    def wfm_locked_part(self, p):
+        """(locked nonce, locked amount) behind a wrapped farm payment"""
+        w = self.wfm.get(p[1])
+        if p[0] != 4 or not w or p[2] <= 0:
+            return None
+        pp = rule3(w["T"], p[2], w["P"])
+        if pp is None:
+            return None
+        if w["pt"] == LOCKED:
+            return (w["pn"], pp)
+        return self.wlp_locked_part([3, w["pn"], pp])
+
+    def factory_takes(self, u, parts):
+        """guards of the factory's mergeTokens / extendLockPeriod seen from the proxy: every token still locked,
+        and the caller's energy entry covers the locked amounts it is debited for"""
+        if any(x is None for x in parts):
+            return True          # the proxy aborts before the nested call; the flag is irrelevant
+        tot = self.last["energy"].get(u, (0, 0, 0))[2]
+        return self.locked_live([k for k, _ in parts]) and sum(a for _, a in parts) <= tot
+
     # ------------------------------------------------------------ execution
     def real_pay(self, p):
         return (TOK[p[0]], p[1], p[2])
@@ -301,10 +329,11 @@ class ProxyWorld:
             ok = und == want
             if ok:
                 ra, rb = (pre["rbase"], pre["rother"]) if self.cfg["base_first"] else (pre["rother"], pre["rbase"])
-                ok = pair_add(ra, rb, pre["S"], p1[2], p2[2], m1, m2) is not None
+                exp = pair_add(ra, rb, pre["S"], p1[2], p2[2], m1, m2)
+                ok = exp is not None
             if ok and extra:
-                lk = p1[1] if p1[0] == 2 else p2[1]
-                ok = self.locked_live([lk] + [self.wlp[p[1]]["k"] for p in extra if p[0] == 3 and p[1] in self.wlp])
+                lk, used = (p1[1], exp[1]) if p1[0] == 2 else (p2[1], exp[2])
+                ok = self.factory_takes(u, [(lk, used)] + [self.wlp_locked_part(p) for p in extra])
             env["ok"] = ok
         elif k == "RemoveLiq":
             _, u, pid, p, m1, m2 = op
@@ -316,7 +345,9 @@ class ProxyWorld:
         elif k == "EnterFarm":
             _, u, farm, p, extra = op
             r = vm.call(A[u], self.proxy, "enterFarmProxy", [self.farms[farm]], [self.real_pay(x) for x in [p] + extra])
-            env["ok"] = self.merge_fm_live([p] + extra, virtual=True) if extra else True
+            if extra:
+                first = (p[1], p[2]) if p[0] == 2 else self.wlp_locked_part(p)
+                env["ok"] = self.factory_takes(u, [first] + [self.wfm_locked_part(x) for x in extra])
         elif k == "ExitFarm":
             _, u, farm, p = op
             if p[0] == 4 and p[1] in self.wfm and farm in (0, 1) and FARMTOK[farm] == self.wfm[p[1]]["ft"] \
@@ -333,24 +364,21 @@ class ProxyWorld:
         elif k == "MergeWlp":
             _, u, ps = op
             r = vm.call(A[u], self.proxy, "mergeWrappedLpTokens", [], [self.real_pay(p) for p in ps])
-            env["ok"] = self.locked_live([self.wlp[p[1]]["k"] for p in ps if p[0] == 3 and p[1] in self.wlp])
+            env["ok"] = self.factory_takes(u, [self.wlp_locked_part(p) for p in ps])
         elif k == "MergeWfm":
             _, u, farm, ps = op
             r = vm.call(A[u], self.proxy, "mergeWrappedFarmTokens", [self.farms[farm]], [self.real_pay(p) for p in ps])
-            env["ok"] = self.merge_fm_live(ps, virtual=False)
+            env["ok"] = self.factory_takes(u, [self.wfm_locked_part(p) for p in ps])
         elif k in ("IncLp", "IncFm"):
             _, u, p, epochs = op
             r = vm.call(A[u], self.proxy, "increaseProxyPairTokenEnergy" if k == "IncLp" else "increaseProxyFarmTokenEnergy",
                         [top_u(epochs)], [self.real_pay(p)])
-            old = None
-            if k == "IncLp" and p[0] == 3 and p[1] in self.wlp:
-                old = self.unlock.get(self.wlp[p[1]]["k"])
-            if k == "IncFm" and p[0] == 4 and p[1] in self.wfm:
-                w = self.wfm[p[1]]
-                kk = w["pn"] if w["pt"] == LOCKED else self.wlp.get(w["pn"], {}).get("k", 0)
-                old = self.unlock.get(kk)
-            new = (now + epochs) - (now + epochs) % EPM
-            env["ok"] = old is not None and epochs in [e for e, _ in OPTS] and new > now and new > old
+            part = self.wlp_locked_part(p) if k == "IncLp" else self.wfm_locked_part(p)
+            if part is not None:
+                old = self.unlock.get(part[0], 0)
+                new = (now + epochs) - (now + epochs) % EPM
+                env["ok"] = epochs in [e for e, _ in OPTS] and new > now and new > old \
+                    and part[1] <= pre["energy"].get(u, (0, 0, 0))[2]
         elif k == "SetPair":
             _, u, b = op
             r = vm.call(A[u], self.proxy, "addPairToIntermediate" if b else "removeIntermediatedPair", [self.pair])
@@ -435,21 +463,6 @@ class ProxyWorld:
         self.last = {x: v for x, v in o.items() if x not in ("pre", "env", "wlp_tab", "wfm_tab", "unlock_tab")}
         return o
 
-    def merge_fm_live(self, ps, virtual):
-        """do the factory's mergeTokens guards pass for a wrapped-farm merge (all locked tokens still locked)?"""
-        ks = []
-        for i, p in enumerate(ps):
-            if virtual and i == 0:
-                if p[0] == 2:
-                    ks.append(p[1])
-                elif p[0] == 3 and p[1] in self.wlp:
-                    ks.append(self.wlp[p[1]]["k"])
-                continue
-            if p[0] == 4 and p[1] in self.wfm:
-                w = self.wfm[p[1]]
-                ks.append(w["pn"] if w["pt"] == LOCKED else self.wlp.get(w["pn"], {}).get("k", 0))
-        return self.locked_live(ks)
-
 
 # ------------------------------------------------------------------ Coq emission
 def cpay(p):
@@ -531,9 +544,21 @@ def coq_history(cfg, trace):
 
 # ------------------------------------------------------------------ generation
 def log_amount(rng, hi):
-    hi = max(2, hi)
+    if hi <= 1:
+        return 1
     e = rng.uniform(0, len(str(hi)) - 1)
     return max(1, min(hi, int(10 ** e) + rng.randint(0, 9)))
+
+
+def rule3(total, cur, full):
+    """rule_of_three_non_zero_result; None when it aborts"""
+    if cur == total:
+        r = full
+    elif total == 0:
+        return None
+    else:
+        r = full * cur // total
+    return r if r > 0 else None
 
 
 def gen_cfg(rng):
